@@ -708,7 +708,11 @@ def stage_merge(run, tier):
                     for c in grp:
                         fails.append((c, "crash", repr(g.exc)))
                     continue
-                jobs = [{"what": "model", "module": f"models.cm{c['i']}", "cls": f"Cm{c['i']}", "attrs": ["x"], "construct": True, "probes": []} for c in grp]
+                from openapi_python_client.parser.properties.schemas import Class
+                cfg0 = vals.ref_schemas({})[0]
+                for c in grp:
+                    c["module"] = str(Class.from_string(string=f"Cm{c['i']}", config=cfg0).module_name)
+                jobs = [{"what": "model", "module": f"models.{c['module']}", "cls": f"Cm{c['i']}", "attrs": ["x"], "construct": True, "probes": []} for c in grp]
                 inp = json.dumps({"pkg_parent": str(g.out.parent), "pkg": g.out.name, "jobs": jobs})
                 env = {k: v for k, v in os.environ.items() if k != "PYTHONPATH"}
                 env["PYTHONHASHSEED"] = "0"
@@ -730,7 +734,7 @@ def stage_merge(run, tier):
                     if c["outside"]:
                         exp = []      # a default outside the narrowed type anywhere in the chain must be reported
                     hasdiag = any(re.search(r"/Cm%d\b" % c["i"], (h or "") + (d or "")) for _, h, d in diag)
-                    if f"models/cm{c['i']}.py" not in files:
+                    if f"models/{c['module']}.py" not in files:
                         if exp:
                             fails.append((c, "rejected", f"composed schema not generated although the effective default {deff!r} is inside the narrowed type (diagnostic: {hasdiag})"))
                         elif not hasdiag:
